@@ -248,6 +248,12 @@ def _one_cross(ctx: Any, case: Dict[str, Any], name: str) -> None:
                 if holders and acquired - realized > Fraction(1, 10**9) * max(acquired, 1):
                     violations.append(("openpositions.cross.asset-with-unsold-cost-and-holders-not-listed", {"asset": asset, "acquired_in_flow_table": float(acquired), "realized_in_detail_table": float(realized)}))
                 continue
+            listed_lots = {str(r["uid"]) for r in report.in_rows(asset)}
+            if any(d["lot_uid"] not in (None, "") and str(d["lot_uid"]) not in listed_lots for d in report.detail_rows(asset)):
+                # the cut also separates a lot from a fraction taken from it (each table is cut on its own under KF1): the cost of
+                # "everything acquired" is then not defined by the In-Flow table, the equation does not apply
+                ctx.count("cross_report_assets_with_an_unlisted_lot")
+                continue
             ctx.count("cross_report_assets")
             unrealized = sum((num(r["cost"]) or Fraction(0) for r in rows), Fraction(0))
             if not _close(realized + unrealized, acquired):
